@@ -249,7 +249,9 @@ PROPS = {
                     "to v2 keys. Pipeline: convertLine_shaped (all 16 line types) and compile_representsAt (the store the model "
                     "compiler builds from a file holds exactly the rows of the records the Spec side decodes from it), hence "
                     "file_served_as_declared: for every data file the model compiles (CDB, RocksDB v1) and every query, the handler "
-                    "model answers Spec.answer of the file's declared zone; answer_perm_invariant / answer_viewSort_invariant / "
+                    "model answers Spec.answer of the file's declared zone; file_served_as_declared_v2 the same for RocksDB v2 keys "
+                    "(file_compiled_v2_canonical, file_represents_declared_v2) and file_served_alike_all_layouts (the stores compiled "
+                    "from one file under the three layouts answer every query alike); answer_perm_invariant / answer_viewSort_invariant / "
                     "file_served_as_declared_file_order: the answer depends on the multiset of declared records only (sections up "
                     "to permutation), so the file order may be used. Correspondence on every run: generated data files compiled by the real cdb/rdb compilers into CDB "
                     "(combined and per-family prefix sets), RocksDB v1 and v2, queried through ServeDNSWithRCODE; implementation = "
@@ -259,7 +261,8 @@ PROPS = {
                     "(additional-section targets lower-case and distinct; serve_v1_refines_spec_anycase / "
                     "file_served_as_declared_anycase need only TargetsLowOK = distinct after lower-casing and conclude equality up to "
                     "the case of additional owner names), LinesOK (a generic ':' line of type A/AAAA has at least 4 "
-                    "rdata bytes), TagOK (the client location is not one of the three 2-byte key markers), SoaDet for arbitrary "
+                    "rdata bytes), LinesV2OK (labels shorter than 256 bytes: putreverseddom writes an over-long label whole where "
+                    "putdom truncates it - illegal names only), TagOK (the client location is not one of the three 2-byte key markers), SoaDet for arbitrary "
                     "permutations; the model codec is tied to the real one by the correspondence (and C09), not by a theorem; "
                     "typed-RR (un)packing by miekg is compared on the wire; files violating SoaHasNs get no Spec verdict.",
         },
@@ -536,3 +539,20 @@ PROPS = {
         "assumptions": ["2-byte location ids; the query name as asked lower-cases to the key name (ServeValid)"],
     },
 }
+
+# ---- later additions to the manifest texts (kept apart so that the long literals above stay put) ----
+PROPS["C03"]["manifest"]["text"] += (
+    " Pipeline: for every data file the model compiler accepts, file_mapRep / file_findMap, file_cdbRep / "
+    "file_getLocationCdb, file_rdbRep / file_getLocationRdb and file_located_as_declared (findLocationTop on the compiled "
+    "store returns exactly the location id and scope of Spec.locate on the file's declared maps and subnets; CDB in both "
+    "bitmap modes, RocksDB v1, and file_located_as_declared_v2 for v2 keys), with kernel-checked witnesses that each "
+    "well-formedness hypothesis is forced (locIds_needed_map / _subnet, w1_needed_rdb, noPctTag_needed, ecsRegular_needed, "
+    "mapsUnique_needed_v2, mapLinesV2OK_needed).")
+PROPS["C16"]["manifest"]["text"] = PROPS["C16"]["manifest"]["text"].replace(
+    "find_first, writeFile_size;",
+    "find_first, writeFile_size; dump_written (Dump of a written file lists exactly the records in insertion order), "
+    "dump_make_roundtrip (Dump -> Make reproduces the file byte for byte, for every hash function), dump_lists_everything / "
+    "dump_mem_iff_find;")
+PROPS["C16"]["manifest"]["note"] = PROPS["C16"]["manifest"]["note"].replace(
+    "Dump of a written file is covered by the correspondence only.",
+    "dump_overflow_loses_record proves what is lost beyond 4 GiB.")
